@@ -42,3 +42,9 @@ Print Assumptions C14_script_decides.
 Print Assumptions C14_default_ltr.
 Print Assumptions C14_variants_irrelevant.
 Print Assumptions C14_total.
+
+(* character_direction answers from its argument and the generated tables alone (no memo, no cache: gen/StateSites.v) *)
+From UL Require StateSitesProofs.
+Theorem C14_library_stateless : StateSitesProofs.library_stateless = true.
+Proof. exact StateSitesProofs.stateless. Qed.
+Print Assumptions C14_library_stateless.
